@@ -24,6 +24,7 @@ type Clause struct {
 	AnchorName string // callee name as written at the call site (e.g. "caches.Purge", "session.handler")
 	AnchorOrd  int    // 0 = every occurrence
 	GhostVar   string // ghost assignment target
+	Props      string // package invariant: the properties whose checks it is in force for ("" = all)
 }
 
 type FuncContract struct {
@@ -291,10 +292,20 @@ func ParseContractFile(path, pkgPath string) (*PkgContracts, error) {
 			cur = nil
 		case strings.HasPrefix(t, "invariant"):
 			// package-level (global) invariant
-			c, err := mkClause("pkginv", strings.TrimSpace(strings.TrimPrefix(t, "invariant")))
+			// `invariant(C24 C28) [label] expr`: in force only in the checks of the properties listed
+			rest := strings.TrimSpace(strings.TrimPrefix(t, "invariant"))
+			props := ""
+			if strings.HasPrefix(rest, "(") {
+				if j := strings.Index(rest, ")"); j > 0 {
+					props = strings.TrimSpace(rest[1:j])
+					rest = strings.TrimSpace(rest[j+1:])
+				}
+			}
+			c, err := mkClause("pkginv", rest)
 			if err != nil {
 				return nil, err
 			}
+			c.Props = props
 			pc.Invariants = append(pc.Invariants, c)
 			cur = nil
 		case strings.HasPrefix(t, "pure "):
